@@ -593,6 +593,10 @@ def bad_recursive_cases():
          "T": st([fd("Next", 'plenc:"1"', idx(1), {"k": "ptr", "e": self}), fd("F", 'plenc:"2"', idx(2), {"k": "unsup", "g": "chan"})])},
         {"ev": "typedef", "gotype": "BadRecM", "u": ["recursive", "mapval"],
          "T": st([fd("M", 'plenc:"1"', idx(1), {"k": "map", "key": {"k": "string"}, "val": self}), fd("X", "", none, {"k": "int", "w": 64})])},
+        {"ev": "typedef", "gotype": "BadRecD", "u": ["recursive", "slice", "dup"],
+         "T": st([fd("Kids", 'plenc:"1"', idx(1), {"k": "slice", "e": self}), fd("A", 'plenc:"2"', idx(2), {"k": "int", "w": 64, "g": "int"}), fd("B", 'plenc:"2"', idx(2), {"k": "string"})])},
+        {"ev": "typedef", "gotype": "BadRecDP", "u": ["recursive", "ptr", "dup"],
+         "T": st([fd("A", 'plenc:"1"', idx(1), {"k": "int", "w": 64, "g": "int"}), fd("Next", 'plenc:"3"', idx(3), {"k": "ptr", "e": self}), fd("B", 'plenc:"1"', idx(1), {"k": "int", "w": 64, "g": "int"})])},
     ]
 
 
